@@ -35,6 +35,12 @@ CLAIMED["C19"] = {
     "note": "'*' width/precision are resolved by the caller of this library and are compared structurally only; float conversions are covered by the float cells shared with C17 (exact dyadic values); templates mixing keyed and positional specifiers are not validated by CPython (TypeError there) but still replayed.",
     "technique": "TLA+ machine of the reference %-template parser and conversion semantics model-checked by TLC; exhaustive TLC-generated templates and cells replayed into Rust; CPython cross-validation of the spec",
 }
+CLAIMED["C18"] = {
+    "text": "Python's format-spec parser (parse_internal_render_format_spec) and the integer / text / boolean rendering pipeline (sign, '#' prefix, grouping every 3/4 with width-driven zero padding, fill and alignment incl. '=' and the 0 flag, precision as character truncation, per-type validity) are written in TLA+ on real strings (FormatSpec.tla); TLC checks the width law and enumerates the product of field choices x value pools and every raw specification string <= 4/5 symbols (malformed ones included) x value pools (small and 30-digit integers, ASCII and multi-byte text, booleans); each cell's expected text or rejection is replayed on FormatSpec::parse + format_int/format_string/format_bool and cross-validated against CPython's format() (0 disagreements required). Float cells come from FloatText.tla (exact dyadic values).",
+    "design_ref": "DESIGN.md section 6 C18",
+    "note": "Integers beyond 2^31 are decimal digit strings (decimal presentations only); 'n' in the C locale; the PEP 682 'z' option of Python 3.11 is not part of the alphabet; float digit generation for arbitrary doubles relies on Rust std (see C17).",
+    "technique": "TLA+ definition of the reference format() semantics model-checked by TLC; exhaustive TLC-generated (spec, value) cells replayed into Rust; CPython cross-validation of the spec",
+}
 NOT_YET = {}
 
 def main():
